@@ -202,6 +202,27 @@ def rule_substep_affine(eng, rep, rule="C15-4.each-substep-moves-x-by-the-change
             rep.bad(rule, site, "util.dykstra|projector-argument", "the projector is not applied to (x - y_i) of the values before the update")
 
 
+def rule_limits_are_the_callers(eng, rep, rule="C15-3b.the-loop-tests-the-callers-tolerance-and-sweep-limit"):
+    """The sqrt(p*tol) bound and 'at most max_iter sweeps' are statements about the values the caller passed: the loop test must compare against the parameters
+    themselves, so neither parameter may be re-assigned inside dykstra (e.g. a 'scale-invariant' tol = tol * max(1, |x0|^2))."""
+    dy = _dykstra(eng)[0] if isinstance(_dykstra(eng), tuple) else eng.fn("util.dykstra")
+    cfg = eng.cfg(dy)
+    names = [p for p in dy.all_params if p in ("tol", "max_iter")] or dy.posparams[2:4]
+    for p in names:
+        redefs = [n for n in cfg.g.nodes if n != cfg.entry and p in cfg.defs_of(n)[0]]
+        if redefs:
+            st = cfg.ast_of(redefs[0])
+            rep.bad(rule, eng.where(dy, st), "util.dykstra|limit-reassigned|%s" % p,
+                    "`%s` re-assigns the parameter `%s`: the loop no longer tests the value the caller asked for, so the sqrt(p*tol) distance bound / the sweep limit stated for that value do not follow" % (short(st, 50), p))
+        else:
+            rep.ok(rule, eng.where(dy), "parameter `%s` is never re-assigned: the loop test uses the caller's value" % p)
+    # the loop test itself: `n < max_iter` and `cI >= tol` over those parameters
+    tests = [ekey(cfg.ast_of(n)) for n in cfg.nodes_of_kind("cond")]
+    for p in names:
+        if not any(p in [x.id for x in ast.walk(cfg.ast_of(n)) if isinstance(x, ast.Name)] for n in cfg.nodes_of_kind("cond")):
+            rep.bad(rule, eng.where(dy), "util.dykstra|limit-not-tested|%s" % p, "no loop test mentions the parameter `%s` (tests: %s)" % (p, tests))
+
+
 def run(eng, rep):
     rep.explain("C15: on util.dykstra's CFG -- counting data-flow for the sweep counter (T3), reaching definitions of the returned variable (T4), "
                 "shape and placement of the stopping accumulator, and symbolic execution of one inner iteration over affine normal forms (T7) showing that "
@@ -211,6 +232,7 @@ def run(eng, rep):
     rule_result_is_last_projector(eng, rep)
     rule_stopping_quantity(eng, rep)
     rule_substep_affine(eng, rep)
+    rule_limits_are_the_callers(eng, rep)
     # the two projectors
     pb = eng.fn("util.pbox")
     r = [n for n in eng.prog.own_nodes(pb) if isinstance(n, ast.Return)]
